@@ -9,7 +9,7 @@ def L(k):
 
 def to_y0_letters(g, warm=None):
     import gen_graph as GG
-    return GG.build_y0(g, L, warm)
+    return GG.build_y0(g, L, warm, every=2)
 
 
 def rand_event(rng, nodes, kmin=1, kmax=3, reuse_worlds=True):
